@@ -31,6 +31,11 @@ class BoundReached(BaseException):
     """A harness bound (clock readings, VM steps) was used up: the path is cut, not judged."""
 
 
+class StepBudget(BaseException):
+    """The harness's VM step bound (M-steps) was reached: reported as a failing path (the run did
+    not end within the number of interpreter steps the harness allows for its bounded inputs)."""
+
+
 class HangAbort(BaseException):
     """Raised by the watchdog alarm inside a path that loops on concrete data."""
 
